@@ -178,6 +178,45 @@ def _limits(gib=8):
     return f
 
 
+# ------------------------------------------------------------------ job corpus
+# Every stateless job a check sends to a `rel` worker is offered to a per-shard reservoir;
+# mon/sanit.py replays the merged sample under ASan, valgrind memcheck and Miri.
+CORPUS = None          # reservoir of the current (forked) shard process
+CORPUS_CAP = 150
+_corpus_seen = 0
+LAST_CORPUS = []       # merged in the parent by shard_map
+
+
+def _corpus_offer(worker, job, rec):
+    global _corpus_seen
+    if CORPUS is None or worker.wrapper:
+        return
+    if worker.cwd is not None and "import" in job.get("code", ""):
+        return
+    if job.get("op", "eval") not in ("eval", "fmt", "parse", "lex") or "state_id" in job or "file" in job \
+            or "jpath" in job or "fault" in job or "multi" in job or job.get("max_stack", 0) > 600:
+        return
+    if "ok" in rec:
+        out = {"ok": rec["ok"] if isinstance(rec["ok"], str) and len(rec["ok"]) < 4000 else None}
+    elif "err" in rec:
+        out = {"err": rec["err"].get("kind")}
+    elif job.get("op") in ("fmt", "parse", "lex") and "panic" not in rec and "crash" not in rec and "timeout" not in rec:
+        out = {"raw": h64(json.dumps(rec, sort_keys=True))}
+    else:
+        return
+    if any(isinstance(v, str) and len(v) > 20000 for v in job.values()):
+        return
+    _corpus_seen += 1
+    item = {"job": job, "env": {k: v for k, v in worker.env.items() if k.startswith("JRSONNET_")}, "expect": out}
+    if len(CORPUS) < CORPUS_CAP:
+        CORPUS.append(item)
+    else:
+        # deterministic reservoir (keyed on the job itself, so a run is reproducible)
+        j = h64([_corpus_seen, job.get("code", "")[:200]]) % _corpus_seen
+        if j < CORPUS_CAP:
+            CORPUS[j] = item
+
+
 class Worker:
     """One jv-worker process.  call(job) -> record.  Record keys set by this class:
     `panic` (from the worker's panic monitor), `crash` (process died: signal / code,
@@ -287,6 +326,7 @@ class Worker:
             self.restarts += 1
             return {"crash": {"rc": rc, "signal": -rc if rc < 0 else None, "stderr": tail}}
         rec = json.loads(line)
+        _corpus_offer(self, job, rec)
         if "panic" in rec:
             # worker exits by itself after reporting a panic (thread-locals may be poisoned)
             try:
@@ -311,10 +351,13 @@ def classify_crash(rec):
 # ------------------------------------------------------------------ sharding
 
 def _shard_entry(fn, idx, n, args, q):
+    global CORPUS, _corpus_seen
     try:
         signal.signal(signal.SIGINT, signal.SIG_DFL)
+        CORPUS = []
+        _corpus_seen = 0
         res = fn(idx, n, *args)
-        q.put((idx, "ok", res))
+        q.put((idx, "ok", (res, CORPUS)))
     except BaseException:
         q.put((idx, "exc", traceback.format_exc()))
 
@@ -340,7 +383,8 @@ def shard_map(fn, args=(), nshards=None):
             for p in procs:
                 p.terminate()
             raise Broken("shard %d raised:\n%s" % (idx, res))
-        out[idx] = res
+        out[idx] = res[0]
+        LAST_CORPUS.extend(res[1])
         got += 1
     for p in procs:
         p.join()
